@@ -83,10 +83,12 @@ pub enum K {
     RawConnect,
     RegLine,
     DropUnreg,
+    Contend,
 }
 
 #[derive(Clone, Debug)]
 pub enum Op {
+    Multi(Vec<Op>),
     Connect,
     Line(usize, String),
     NewUser { nick: String, user: String },
@@ -413,6 +415,60 @@ pub fn gen_op(m: &Model, p: &Profile, seed: &OpSeed) -> Option<Op> {
         r -= w;
     }
     let regs = registered_conns(m);
+    if kind == K::Contend {
+        // two fresh connections claim the same nick; the second one completes first, so the first
+        // is refused at completion (433) - then it acts, renames, or goes away
+        let open = (0..m.conns.len()).filter(|c| m.is_open(*c)).count();
+        if open + 2 > p.max_conns + 2 {
+            return Some(Op::Line(*regs.get(0)?, "PING nocontend".into()));
+        }
+        let nicks = if p.reg_nicks.is_empty() { &p.nicks } else { &p.reg_nicks };
+        let n = nicks[s.pick(nicks.len())].clone();
+        let a = m.conns.len();
+        let b = a + 1;
+        let pass = p.reg_passwords.get(0).cloned();
+        let mut v = vec![Op::Connect, Op::Connect];
+        if let Some(pw) = &pass {
+            v.push(Op::Line(a, format!("PASS {}", pw)));
+            v.push(Op::Line(b, format!("PASS {}", pw)));
+        }
+        v.push(Op::Line(a, format!("NICK {}", n)));
+        match s.pick(3) {
+            0 => {
+                v.push(Op::Line(b, format!("NICK {}", n)));
+                v.push(Op::Line(b, format!("USER u{} 0 * :Real c{}", b, b)));
+            }
+            1 => {
+                v.push(Op::Line(b, format!("USER u{} 0 * :Real c{}", b, b)));
+                v.push(Op::Line(b, format!("NICK {}", n)));
+            }
+            _ => {
+                // a registered user renames onto the claimed nick instead
+                if let Some(r) = regs.get(s.pick(regs.len().max(1))) {
+                    v.push(Op::Line(*r, format!("NICK {}", n)));
+                }
+            }
+        }
+        v.push(Op::Line(a, format!("USER u{} 0 * :Real c{}", a, a)));
+        // what the refused connection does next
+        match s.pick(7) {
+            0 => v.push(Op::Line(a, GATED[s.pick(GATED.len())].to_string())),
+            1 => v.push(Op::Line(a, format!("NICK {}", nicks[s.pick(nicks.len())]))),
+            2 => v.push(Op::Close(a, CloseKind::Drop)),
+            3 => v.push(Op::Line(a, "QUIT".into())),
+            4 => {
+                v.push(Op::Line(a, format!("PRIVMSG {} :who am i", n)));
+                v.push(Op::Line(a, "JOIN #c0".into()));
+                v.push(Op::Close(a, CloseKind::Drop));
+            }
+            5 => v.push(Op::Close(a, CloseKind::HalfClose)),
+            _ => {
+                v.push(Op::Line(a, format!("NICK {}", n)));
+                v.push(Op::Line(a, "MODE #c0 +m".into()));
+            }
+        }
+        return Some(Op::Multi(v));
+    }
     if matches!(kind, K::RawConnect | K::RegLine | K::DropUnreg) {
         let unreg = unregistered_conns(m);
         let open = (0..m.conns.len()).filter(|c| m.is_open(*c)).count();
@@ -785,7 +841,7 @@ pub fn gen_op(m: &Model, p: &Profile, seed: &OpSeed) -> Option<Op> {
             }
         }
         K::Stats => format!("STATS {}", ["u", "m", "o"][s.pick(3)]),
-        K::NewUser | K::RawConnect | K::RegLine | K::DropUnreg => unreachable!(),
+        K::NewUser | K::RawConnect | K::RegLine | K::DropUnreg | K::Contend => unreachable!(),
     };
     Some(Op::Line(c, line))
 }
